@@ -1,5 +1,5 @@
 import YardlModel.Evolution
-import Props.C06
+import YardlProofs.ConvRefl
 
 /-!
 # C05 — Accepted schema evolution preserves data across versions
@@ -16,9 +16,10 @@ overflow checks, integers <-> canonical decimal strings.
 
 Proved here:
 * `conversion_total` — `conv` is total.
-* `unchanged_types_convert_exactly_partial` — a value converted between two identical types is
-  unchanged (types built from primitives and containers, any depth; records/enums/unions: evaluated
-  by the driver on every identity chain, not proved — **partial**).
+* `unchanged_types_convert_exactly` — a value converted between two identical well-formed types is
+  unchanged, in both directions, for **every** type (`wfT`) and every value of it (`fitsT`), at any
+  depth: records field by field through the by-name lookup, unions through the self-matching of
+  detectUnionChanges, vectors and optionals element-wise.
 * `record_fields_convert_by_name`, `added_fields_are_defaulted`, `removed_fields_are_dropped`,
   `integer_narrowing_overflows` — the documented behaviours on concrete shapes (kernel-evaluated).
 * `primitive pairs`: the classes come from C06 (`primitive_change_table`, regenerated from source).
@@ -33,48 +34,20 @@ with `conv`; predicted runtime errors must be raised.
 -/
 
 namespace Yardl.C05
-open Yardl Yardl.Evo Yardl.C06
+open Yardl Yardl.Evo
 
 theorem conversion_total (reading : Bool) (fuel : Nat) (src dst : ETy) (v : Val) : ∃ r, conv reading fuel src dst v = r := ⟨_, rfl⟩
 
-/-- the value has the shape of the (plain) type -/
-def fits : ETy → Val → Bool
-  | .prim _, _ => true
-  | .optional _, .none => true
-  | .optional t, .some x => fits t x
-  | .vector t _, .list vs => vs.all (fits t)
-  | .array _ _, _ => true
-  | .map _ _, _ => true
-  | _, _ => false
+theorem unchanged_types_convert_exactly (reading : Bool) (fuel : Nat) (t : ETy) (v : Val)
+    (hw : wfT t = true) (hv : fitsT t v = true) (h : depth t ≤ fuel) : conv reading fuel t t v = .ok v :=
+  conv_self reading fuel t v hw hv h
 
-theorem mapM'_id (g : Val → CRes) : ∀ (vs acc : List Val), (∀ v ∈ vs, g v = .ok v) → mapM' g vs acc = .ok (.list (acc.reverse ++ vs))
-  | [], acc, _ => by simp [mapM']
-  | v :: r, acc, h => by
-    have hv := h v (by simp)
-    have := mapM'_id g r (v :: acc) (fun x hx => h x (by simp [hx]))
-    simp [mapM', hv, this]
-
-theorem unchanged_types_convert_exactly_partial (reading : Bool) :
-    ∀ (fuel : Nat) (t : ETy) (v : Val), plain t = true → fits t v = true → depth t ≤ fuel → conv reading fuel t t v = .ok v
-  | 0, t, _, _, _, h => by cases t <;> simp [depth] at h
-  | fuel + 1, .prim p, v, _, _, _ => by simp [conv, convPrim]
-  | fuel + 1, .optional t, v, hp, hf, h => by
-    cases v <;> simp [fits] at hf <;> simp [conv]
-    case some x =>
-      have := unchanged_types_convert_exactly_partial reading fuel t x (by simpa [plain] using hp) hf (by simp [depth] at h; omega)
-      simp [this, CRes.map]
-  | fuel + 1, .vector t l, v, hp, hf, h => by
-    cases v <;> simp [fits] at hf
-    case list vs =>
-      have hall : ∀ x ∈ vs, conv reading fuel t t x = .ok x := fun x hx =>
-        unchanged_types_convert_exactly_partial reading fuel t x (by simpa [plain] using hp) (hf x hx) (by simp [depth] at h; omega)
-      have := mapM'_id (conv reading fuel t t) vs [] hall
-      simp [conv, this]
-  | fuel + 1, .array t k, v, _, _, _ => by simp [conv]
-  | fuel + 1, .map k w, v, _, _, _ => by simp [conv]
-  | fuel + 1, .enum _ _ _ _, _, hp, _, _ => by simp [plain] at hp
-  | fuel + 1, .record _ _, _, hp, _, _ => by simp [plain] at hp
-  | fuel + 1, .union _, _, hp, _, _ => by simp [plain] at hp
+/-- the hypotheses are met by a nested value that uses records, unions, optionals, vectors and enums -/
+example :
+    let t : ETy := .record 1 (.cons 10 (.union (.null (.cons (.prim .int32) (.cons (.enum 2 false .int32 [(5, 0), (6, 1)]) .nil))))
+      (.cons 11 (.vector (.optional (.prim .string)) none) .nil))
+    let v : Val := .record [.case 1 (.int 1), .list [.none, .some (.str [104])]]
+    wfT t = true ∧ fitsT t v = true := by decide
 
 def recOld : ETy := .record 1 (.cons 10 (.prim .int32) (.cons 11 (.prim .string) (.cons 12 (.optional (.prim .int16)) .nil)))
 def recNew : ETy := .record 1 (.cons 11 (.prim .string) (.cons 13 (.vector (.prim .uint8) none) (.cons 10 (.prim .int64) .nil)))
